@@ -242,7 +242,9 @@ class ThermostatParametersStructure(StructureDecoder):
         self, message: bytearray, thermostats: int, start: int, end: int
     ) -> Generator[tuple[int, ParameterValues], None, None]:
         """Get a single thermostat parameter."""
-        for index in range(start, (start + end) // thermostats):
+        # The first slot of the block is the thermostat profile, which
+        # doesn't belong to any thermostat.
+        for index in range(start, (start + end - 1) // thermostats):
             description = THERMOSTAT_PARAMETERS[index]
             if parameter := unpack_parameter(
                 message, self._offset, size=description.size
